@@ -18,11 +18,14 @@ struct LoadedKey {
 };
 
 // Loads jwk text with jwks_create; returns false when the set or the first item is unusable.
-bool lib_load_key(Ctx &ctx, const std::string &jwk, LoadedKey &lk);
+// fail_at arms the allocator window for the jwks_create call; *fired / *tainted report whether a fault fired and
+// whether it fired inside a jansson parse (jansson 2.14 may then hand back a damaged tree: see the known findings)
+bool lib_load_key(Ctx &ctx, const std::string &jwk, LoadedKey &lk, int64_t fail_at = 0, bool fail_from = false, bool *fired = nullptr, bool *tainted = nullptr);
 void lib_free_key(LoadedKey &lk);
 
 // jwt_checker_verify + C14 monitor. fail_at arms the allocator window.
 struct VerifyOut {
+	bool tainted = false; // an injected allocation failure fell inside a jansson parse or dump
 	int ret = 0;
 	int err = 0;
 	std::string msg;
@@ -33,6 +36,7 @@ VerifyOut lib_verify(Ctx &ctx, jwt_checker_t *c, const char *token, bool c14 = t
 		     bool fail_from = false, int64_t fail_at2 = 0);
 
 struct GenerateOut {
+	bool tainted = false; // an injected allocation failure fell inside a jansson parse or dump
 	bool ok = false;
 	std::string token;
 	int err = 0;
